@@ -2,3 +2,4 @@
 import Thanos.Driver.Index
 import Thanos.Props.C13
 import Thanos.Props.C12
+import Thanos.Props.C16
